@@ -80,6 +80,30 @@ def nan_guard(ctx, rule="R08.3"):
 
 
 
+def normalisation_guard(ctx, rule="R08.4"):
+    """An empty bin has count 0: both normalisations divide by max(count, 1) (cdivision=True: a division by 0 gives inf / nan silently)."""
+    prog = ctx.prog
+    n = 0
+    for v in ("normalization_matheron", "normalization_cressie"):
+        fn = prog.func(EST, v)
+        env_guarded = {t.targets[0].id for t in ast.walk(fn) if isinstance(t, ast.Assign) and isinstance(t.targets[0], ast.Name) and ast.unparse(t.value) == "max(counts[i], 1)"}
+        divs = [d for d in ast.walk(fn) if (isinstance(d, ast.BinOp) and isinstance(d.op, ast.Div)) or (isinstance(d, ast.AugAssign) and isinstance(d.op, ast.Div))]
+        bad = []
+        for d in divs:
+            den = d.right if isinstance(d, ast.BinOp) else d.value
+            for x in ast.walk(den):
+                if isinstance(x, ast.Subscript) and PR.base_name(x) == "counts":
+                    # a count may appear in a denominator only inside max(counts[i], 1)
+                    inside = any(isinstance(c, ast.Call) and ast.unparse(c.func) == "max" and any(y is x for y in ast.walk(c)) and any(ast.unparse(a) in ("1", "1.0") for a in c.args) for c in ast.walk(den))
+                    if not inside:
+                        bad.append(ast.unparse(den))
+                elif isinstance(x, ast.Name) and x.id in {l for l in (prog.mod(EST).pyx.functions[v]["locals"])} and x.id not in env_guarded and x.id != "i":
+                    bad.append(ast.unparse(den))
+        n += len(divs)
+        ctx.check(bool(divs) and not bad, rule, "%s::%s" % (EST, v), "every division by a pair count is by max(count, 1): %s" % (sorted(set(bad)) or "all guarded"), "count-guard")
+    ctx.floor(rule, "divisions in the normalisation helpers", n, 3)
+
+
 def mask_guard(ctx, rule="R08.3"):
     """ma_structured: a pair is accumulated iff BOTH of its cells are unmasked (truth table of the guard, whatever its spelling)."""
     prog = ctx.prog
@@ -205,10 +229,16 @@ def estimator_forwarded(ctx, rule="R08.10"):
 
 def run(ctx):
     estimator_forwarded(ctx)
+    normalisation_guard(ctx)
+    from .C13 import forcing_sites
+
+    forcing_sites(ctx, rule="R08.11")  # bin edges are rescaled to the unit sphere iff the distances are great-circle distances (shared with C13 / C09)
     from . import C15_kernels as _K
 
     _K.int_division(ctx, rule="R08.9")  # normalisation by the pair count must be a floating-point division (cdivision=True)
     _K.accumulator_reset(ctx, rule="R08.9")
+    _K.accumulator_complete(ctx, rule="R08.9")
+    _K.build_independent(ctx, rule="R08.9")
     _K.zero_init(ctx, rule="R08.9")
     _K.full_extent(ctx, rule="R08.9")  # every field row / point pair is visited
     from . import C15_bounds
@@ -548,6 +578,17 @@ def run(ctx):
     ctx.check(set(cmpz) == {"in_band", "in_angle"} and "bandwidth" in cmpz.get("in_band", "") and "angles_tol" in cmpz.get("in_angle", ""), "R08.5", EST + "::dir_test",
               "band distance is compared with bandwidth, angle with angles_tol: %s" % cmpz, "cmp")
     ctx.note("R08.5", "observed convention: %s (strict); the documentation says 'within', so strictness is recorded, not enforced" % cmpz)
+    # the band distance is accumulated as a sum of squares: it is compared with the bandwidth as a length (sqrt of the sum), or both sides squared
+    bacc = [a for a in ast.walk(dtf) if isinstance(a, ast.AugAssign) and isinstance(a.target, ast.Name) and a.target.id == "b_dist"]
+    squares = bool(bacc) and all((isinstance(a.value, ast.BinOp) and isinstance(a.value.op, ast.Mult) and ast.unparse(a.value.left) == ast.unparse(a.value.right))
+                                 or (isinstance(a.value, ast.BinOp) and isinstance(a.value.op, ast.Pow) and ast.unparse(a.value.right) in ("2", "2.0")) for a in bacc)
+    band = [n.value for n in ast.walk(dtf) if isinstance(n, ast.Assign) and isinstance(n.targets[0], ast.Name) and n.targets[0].id == "in_band" and isinstance(n.value, ast.Compare)]
+    okb = False
+    if squares and len(band) == 1 and len(band[0].ops) == 1:
+        sides = [ast.unparse(band[0].left), ast.unparse(band[0].comparators[0])]
+        okb = sorted(sides) in (sorted(["sqrt(b_dist)", "bandwidth"]), sorted(["b_dist", "bandwidth * bandwidth"]), sorted(["b_dist", "bandwidth ** 2"]))
+    ctx.check(okb, "R08.5", EST + "::dir_test", "b_dist sums squared offsets; the band test compares it with the bandwidth in the same power (sqrt(b_dist) with bandwidth, or b_dist with bandwidth squared): %s"
+              % ([ast.unparse(b) for b in band]), "band-power")
 
     # ---------------------------------------------------------------- R08.6 parity / symmetry
     for nm in ("estimator_matheron", "estimator_cressie"):
